@@ -172,7 +172,7 @@ Proof.
   - intros H t Ht. apply in_seq in Ht.
     replace (t <? 0) with false by (symmetry; apply Nat.ltb_ge; lia).
     rewrite Nat.sub_0_r, Nat.div_1_r.
-    destruct (Hcell t f ltac:(lia) Hcn) as (l0 & Hl0 & E0). unfold get_cell in E0. rewrite E0.
+    destruct (Hcell t f ltac:(lia) Hc) as (l0 & Hl0 & E0). unfold get_cell in E0. rewrite E0.
     cbn [cell_eqb].
     pose proof (Nat.mod_upper_bound t (nlevels fb f) ltac:(lia)) as Hm.
     pose proof (H t (t mod nlevels fb f) ltac:(lia) Hm) as Hb.
@@ -182,7 +182,7 @@ Proof.
     replace (t <? 0) with false in H by (symmetry; apply Nat.ltb_ge; lia).
     rewrite Nat.sub_0_r, Nat.div_1_r in H.
     rewrite (Hbit t f l Ht Hc Hl). unfold get_cell.
-    destruct (Hcell t f Ht Hcn) as (l0 & Hl0 & E0). unfold get_cell in E0. rewrite E0 in H |- *.
+    destruct (Hcell t f Ht Hc) as (l0 & Hl0 & E0). unfold get_cell in E0. rewrite E0 in H |- *.
     cbn [cell_eqb] in H. apply Nat.eqb_eq in H. rewrite is_level_some, H. apply Nat.eqb_sym.
 Qed.
 
